@@ -47,6 +47,12 @@ THEOREMS = [
     "Qentem.Props.C20.unescape_pair_digits_in_context",
     "Qentem.Props.C20.unescape_u_in_context",
     "Qentem.Props.C20.unescape_u_decodes",
+    "Qentem.Props.C20.unEscape_ret_le",
+    "Qentem.Props.C20.unescape_tokens",
+    "Qentem.Props.C20.unescape_tokens_eoi",
+    "Qentem.Props.C20.unescape_text",
+    "Qentem.Props.C20.unescape_text_decodes",
+    "Qentem.Props.C20.toUTF_decode_list",
     "Qentem.Props.C20.constants_match",
 ]
 BATCH = 512
